@@ -85,7 +85,7 @@ func c15Bases() []base {
 			{k: "logger.root.type", v: "AsyncLogger", def: "!err"},
 			{k: "logger.root.bufferSize", v: "128", def: "10000", path: "logger.root.BufferSize", alt: "100", ill: append([]string{"99", "0", "-1"}, intIll...)},
 			{k: "logger.root.bufferFullPolicy", v: "Block", def: "1", path: "logger.root.BufferFullPolicy", alt: "DiscardOldest", altD: "2", ill: []string{"block", "nope", "0", ""}},
-			{k: "logger.root.layout.type", v: "TextLayout", def: "<nil>", path: "logger.root.Layout", alt: "JSONLayout", altD: "*log.JSONLayout"},
+			{k: "logger.root.layout.type", v: "TextLayout", def: "<nil>", path: "logger.root.Layout", alt: "JSONLayout", altD: "*log.JSONLayout", ill: []string{"XMLLayout", "textlayout", ""}},
 			{k: "logger.root.appenderRef[0].ref", v: "f", def: "", ill: []string{"missing"}},
 			{k: "logger.root.appenderRef[1].ref", v: "f2", def: ""},
 			{k: "logger.root.appenderRef[1].level", v: "error", def: ""},
@@ -105,6 +105,7 @@ func c15Bases() []base {
 			{k: "logger.biz.type", v: "Logger", def: "!err"},
 			{k: "logger.biz.tags", v: "_c01_*", def: "!err", path: "logger.biz.Tags", alt: "_c01_probe , _vfx_*", altD: "_c01_probe , _vfx_*", ill: []string{"*", "_c01*", " , "}},
 			{k: "logger.biz.appenderRef.ref", v: "rec", def: "!err"},
+			{k: "logger.biz.layout.type", v: "JSONLayout", def: "<nil>", path: "logger.biz.Layout", alt: "TextLayout", altD: "*log.TextLayout", ill: []string{"Nope", ""}}, // an OPTIONAL element: absent is fine, an unknown type is not
 		}},
 		{name: "rolling-logger", attrs: []attr{
 			{k: "appender.unused.type", v: "Discard", def: "!err"},
